@@ -406,7 +406,9 @@ impl verif_rt::chrony::ChronySim for Chronyd {
             }
         }
         match mode {
-            Mode::Silent => timeout_ns * tries as i64,
+            // (chrony-candm compares its u16 attempt counter with n_tries after incrementing it:
+            // zero tries means 65 536 attempts)
+            Mode::Silent => timeout_ns * if tries == 0 { 65_536 } else { tries as i64 },
             Mode::Gone => w.crng.range(5_000, 200_000),
             _ => match w.crng.below(20) {
                 0 => w.crng.range(100_000_000, 2_900_000_000),
@@ -470,7 +472,28 @@ impl verif_rt::chrony::ChronySim for Chronyd {
             Mode::Gone => Err(std::io::Error::new(std::io::ErrorKind::NotFound, "chronyd socket is gone")),
             Mode::NonTracking => Ok(Reply { status: CStatus::Success, cmd: 14, sequence: 0, body: ReplyBody::Null }),
             Mode::Sync | Mode::Stale | Mode::BadLeap | Mode::FutureRef => {
-                let (off, delay, disp) = w.valid_report(e);
+                // when the PHC is chronyd's reference, what chronyd reports is relative to the PHC,
+                // whose own error (up to the device's error bound) comes on top
+                let phc_pre = if ref_id == phc_refid_of(w.cfg.phc_name) && w.cfg.phc != 0 { Some(w.write_phc()) } else { None };
+                let e_rep = match phc_pre {
+                    Some(PhcState::Present(v)) if v > 0 => {
+                        let m = (e.unsigned_abs() as i64).saturating_sub(v).max(0);
+                        if e < 0 {
+                            -m
+                        } else {
+                            m
+                        }
+                    }
+                    _ => e,
+                };
+                let (mut off, mut delay, mut disp) = w.valid_report(e_rep);
+                if mode == Mode::Sync && w.cfg.script != 5 && e_rep.unsigned_abs() < 1_000_000_000 && w.crng.chance(3) {
+                    // chronyd's start-up defaults (1 s of root delay and dispersion) under a
+                    // synchronised leap status: generous, hence valid, and to be used like any other
+                    delay = 1.0;
+                    disp = 1.0;
+                    off = *w.crng.pick(&[0.0f64, -0.25, 0.125]);
+                }
                 let mut interval = w.interval_s;
                 if w.cfg.script == 4 && w.crng.chance(12) {
                     // what chronyd *reports* as its update interval need not be a sane positive number
@@ -483,6 +506,12 @@ impl verif_rt::chrony::ChronySim for Chronyd {
                     let thr = (interval * 8.0 * 1e9) as i128;
                     let delta = *w.crng.pick(&[-2_000_000_000i128, -1_000_000_001, -999_999_999, -1, 0, 1, 999_999_999, 1_000_000_001, 3_000_000_000]);
                     ref_ns = rt_now - (thr + delta).max(0);
+                }
+                if mode == Mode::Stale && w.crng.chance(8) {
+                    // a chronyd that has never had a reference, yet claims a synchronised leap status
+                    ref_ns = *w.crng.pick(&[0i128, 0, 1, 999_999_999, 1_000_000_000]);
+                    let cur = w.interval_s;
+                    interval = *w.crng.pick(&[0.0f64, 0.0, cur]);
                 }
                 if mode == Mode::BadLeap {
                     leap = if w.cfg.script == 4 {
@@ -501,7 +530,7 @@ impl verif_rt::chrony::ChronySim for Chronyd {
                     }
                 }
                 let t = base(leap, ref_ns, off, delay, disp, interval, ref_id);
-                let phc = if ref_id == phc_refid_of(w.cfg.phc_name) && w.cfg.phc != 0 { w.write_phc() } else { PhcState::NotRead };
+                let phc = phc_pre.unwrap_or(PhcState::NotRead);
                 w.polls[idx].tracking = Some(info(&t, ref_ns));
                 w.polls[idx].phc = phc;
                 w.last_good_reply = Some(now);
